@@ -36,10 +36,20 @@ REGION = [
 ]
 
 
-def build(host_active, eq_initial):
-    hs = env.hsms_settings(active=host_active, device_type=secsgem.common.DeviceType.HOST, t3=T3, t5=T5, t6=T6, establish_communication_timeout=DELAY)
-    es = env.hsms_settings(active=not host_active, device_type=secsgem.common.DeviceType.EQUIPMENT, t3=T3, t5=T5, t6=T6,
-                           establish_communication_timeout=DELAY)
+def build(host_active, eq_initial, transport="loop"):
+    if transport == "tcp":
+        # the real TcpClientConnection / TcpServerConnection of both handlers over the kernel model (mc/vnet.py)
+        def mk(active, dt):
+            mode = secsgem.hsms.HsmsConnectMode.ACTIVE if active else secsgem.hsms.HsmsConnectMode.PASSIVE
+            return secsgem.hsms.HsmsSettings(connect_mode=mode, address="10.0.0.20", port=5020, device_type=dt, t3=T3, t5=T5, t6=T6,
+                                             establish_communication_timeout=DELAY)
+
+        hs = mk(host_active, secsgem.common.DeviceType.HOST)
+        es = mk(not host_active, secsgem.common.DeviceType.EQUIPMENT)
+    else:
+        hs = env.hsms_settings(active=host_active, device_type=secsgem.common.DeviceType.HOST, t3=T3, t5=T5, t6=T6, establish_communication_timeout=DELAY)
+        es = env.hsms_settings(active=not host_active, device_type=secsgem.common.DeviceType.EQUIPMENT, t3=T3, t5=T5, t6=T6,
+                               establish_communication_timeout=DELAY)
     host = secsgem.gem.GemHostHandler(hs)
     eq = secsgem.gem.GemEquipmentHandler(es, initial_control_state=eq_initial, initial_online_control_state="REMOTE")
     sv = secsgem.gem.StatusVariable(10, "sv10", "u", V.U4, False)
@@ -52,6 +62,7 @@ def build(host_active, eq_initial):
     eq.equipment_constants[21] = secsgem.gem.EquipmentConstant(21, "ec21", 0, 100, 50, "", V.U1)
     eq.alarms[25] = secsgem.gem.Alarm(25, "alarm25", "text25", 1, 100025, 200025)
     eq.collection_events[50] = secsgem.gem.CollectionEvent(50, "ce50", [30])
+    eq.collection_events[51] = secsgem.gem.CollectionEvent(51, "ce51", [30])
     return host, eq, hs, es
 
 
@@ -60,20 +71,25 @@ def val(x):
     return g() if callable(g) else x
 
 
-def run_one(devs, budgets, host_active=True, order="host-first", eq_initial="ONLINE", phase="full", cuts=False, paced=False):
+def run_one(devs, budgets, host_active=True, order="host-first", eq_initial="ONLINE", phase="full", cuts=False, paced=False, transport="loop"):
     box = {"steps": [], "bad": []}
 
     def driver(s):
-        host, eq, hs, es = build(host_active, eq_initial)
+        if transport == "tcp":
+            from mc import vnet  # noqa: PLC0415
+
+            vnet.kernel()
+        host, eq, hs, es = build(host_active, eq_initial, transport)
         received = []
         host.events.collection_event_received += lambda d: received.append((val(d["ceid"]), val(d["rptid"]), [(v["dvid"], v["value"]) for v in d["values"]]))
         # create the connections and join them
         host.protocol._connection  # noqa: B018
         eq.protocol._connection  # noqa: B018
-        link = env.Link(hs.loop, es.loop, chunk_menu=cuts)
-        if paced:
-            hs.loop.pace = es.loop.pace = PACE
-        env.autoconnect(link)
+        if transport != "tcp":
+            link = env.Link(hs.loop, es.loop, chunk_menu=cuts)
+            if paced:
+                hs.loop.pace = es.loop.pace = PACE
+            env.autoconnect(link)
         step = box["steps"].append
         bad = box["bad"].append
 
@@ -137,8 +153,14 @@ def run_one(devs, budgets, host_active=True, order="host-first", eq_initial="ONL
         def event(tag, subscribe, rptid=1001):
             if subscribe:
                 host.subscribe_collection_event(50, [30], report_id=rptid)
+                # a second event, linked and then disabled again (S2F37 CEED = False for it only): never reported, and it must not
+                # keep the events named after it in one trigger call from being reported
+                host.subscribe_collection_event(51, [30], report_id=rptid + 500)
+                r = host.send_and_waitfor_response(host.stream_function(2, 37)({"CEED": False, "CEID": [51]}))
+                if r is None:
+                    bad((f"service-call|disable-event-51|{tag}", {}))
             n0 = len(received)
-            eq.trigger_collection_events([50])
+            eq.trigger_collection_events([51, 50])
             # the event report is sent by its own thread: wait (virtual time) until it is acknowledged or T3 passed
             s.block(lambda: len(received) > n0, s.clock + T3 + 1, "wait event")
             s.settle()
@@ -207,7 +229,7 @@ def run_one(devs, budgets, host_active=True, order="host-first", eq_initial="ONL
 
     sched = vrt.run(driver, devs, budgets, max_steps=2_000_000, max_time=20000.0, line_points=(phase == "handshake"))
     res = {"trace": sched.trace, "v": []}
-    case = {"host_active": host_active, "order": order, "eq_initial": eq_initial, "phase": phase, "cuts": cuts, "paced": paced}
+    case = {"host_active": host_active, "order": order, "eq_initial": eq_initial, "phase": phase, "cuts": cuts, "paced": paced, "transport": transport}
     if sched.harness_failure or (sched.driver_exception and "HarnessError" in sched.driver_exception):
         res["harness"] = (sched.harness_failure or sched.driver_exception)[-1500:]
         res["obs"] = None
@@ -245,6 +267,7 @@ def run(ctx):
         "line of GemHandler.waitfor_communicating / _on_state_communicating (the waiter registration against the transition)",
         f"'within a bounded time' = T5 + T6 + 2 (T3 + delay) = {BOUND} s of virtual time",
         "the equipment's own tables are the reference for every host service call",
+        "tcp parts: both handlers use the real TcpClientConnection / TcpServerConnection over the kernel model mc/vnet.py (no segment cuts there)",
         "mid-flight phase: the link is paced (1 ms between the segments of one write); a side is disabled half a gap after the peer started "
         "a message to it, so with a segment cut the disabled side holds an incomplete message; it is re-enabled after T3",
     ]
@@ -269,6 +292,19 @@ def run(ctx):
         states += st["distinct_outcomes"]
         if ctx.out_of_time():
             break
+    # the same script with both handlers on their real TCP connection classes over the kernel model: full script under the default schedule
+    # for every configuration, the start-up handshake under every schedule with <= 1 delay
+    for cfg in configs(ctx.thorough):
+        st = explore.explore(ctx, run_one, {"sched": 0, "cut": 0}, f"c20-tcp-full-{cfg}", opts=dict(cfg, phase="full", transport="tcp"), chunk=4)
+        parts.append({"cfg": cfg, "phase": "full", "transport": "tcp", "executions": st["executions"], "outcomes": st["distinct_outcomes"]})
+        tot += st["executions"]
+        states += st["distinct_outcomes"]
+    for cfg in configs(False)[:2] + configs(False)[4:6]:
+        st = explore.explore(ctx, run_one, {"sched": 1, "cut": 0}, f"c20-tcp-handshake-{cfg}", opts=dict(cfg, phase="handshake", transport="tcp"), chunk=8)
+        parts.append({"cfg": cfg, "phase": "handshake", "transport": "tcp", "budgets": {"sched": 1}, "executions": st["executions"],
+                      "outcomes": st["distinct_outcomes"], "levels_completed": st["levels_completed"]})
+        tot += st["executions"]
+        states += st["distinct_outcomes"]
     # disable in mid-flight: paced link, every <= 1 segment cut (the cut decides which message is half delivered at the disable)
     for cfg in configs(False)[:2] + configs(False)[4:5]:
         st = explore.explore(ctx, run_one, {"sched": 0, "cut": 1}, f"c20-midflight-{cfg}", opts=dict(cfg, phase="midflight", cuts=True, paced=True), chunk=4)
